@@ -177,6 +177,23 @@ def run(ctx):
                        % (ty, o[0], where, path), w2, {'chain': chain, 'origin': where})
     ctx.counts['origin_obligations'] = nob
 
+    # ---- R13.4 null dereference of missing XML text/attributes in readers of user supplied files
+    ctx.rule('R13.4', 'readers of user supplied XML (project files, platform files, suppression files) null-test tinyxml2 Attribute()/GetText() '
+                      'results before converting/comparing/dereferencing them (same rule as R30.1, other files)')
+    from . import C30
+    user_xml = tuple(sorted({f['file'] for f in F.all_fns() if f['file'] in ('lib/importproject.cpp', 'lib/platform.cpp', 'lib/suppressions.cpp',
+                                                                              'cli/cmdlineparser.cpp', 'lib/settings.cpp', 'lib/addoninfo.cpp')
+                             and any(c['f'].split('(')[0] in C30.NULLABLE for c in f['calls'])}))
+    if user_xml:
+        class _Sub:
+            pass
+        before = len(ctx.obls)
+        rules_before = dict(ctx.rules)
+        C30.run(ctx, user_xml)
+        ctx.rules = rules_before
+        for o in ctx.obls[before:]:
+            o['rule'] = 'R13.4'
+
     # ---- R13.2 handler vocabulary of the per-file entry
     ci = F.one('CppCheck::checkInternal')
     body = F.body(ci)['body']
